@@ -41,7 +41,16 @@ def gen(rng, tier):
     for i in range(n):
         a, b = pair(rng)
         fa, fb = rng.random() < 0.5, rng.random() < 0.5
-        recs = [bytes(rng.randrange(256) for _ in range(rng.choice([1, 5, 80, 250, 1100]))).hex() for _ in range(rng.choice([1, 2, 6]))]
+        if i % 3 == 2:
+            # fixed-width records padded with EBCDIC blanks (0x40), as real parameter extracts are: long runs of the very
+            # byte the 1014 trailer consists of, in files of more than two blocks' worth of data
+            def padded():
+                n = rng.choice([80, 250, 1012, 1014, 1100])
+                body = bytes(rng.choice(b'ABCDEFGHIJ0123456789') for _ in range(rng.randrange(0, min(n, 40))))
+                return (body + b'\x40' * n)[:n]
+            recs = [padded().hex() for _ in range(rng.choice([2, 3, 6, 12, 30]))]
+        else:
+            recs = [bytes(rng.randrange(256) for _ in range(rng.choice([1, 5, 80, 250, 1100]))).hex() for _ in range(rng.choice([1, 2, 6]))]
         via = ['func', 'cli', 'paramconv', 'paramconv-o'][i % 4]
         if via.startswith('paramconv'):
             a, b = rng.choice([('cp500', 'latin_1'), ('latin_1', 'cp500')])
